@@ -31,6 +31,10 @@ theorem C08_skeleton_type_BatchCollector : skel_type_BatchCollector =
     ["struct", "batchedMuts BatchedMutations", "scheduledCount *atomic.Int32", "batchSize int",
       "writtenValues []BatchWriteObject", "writtenValuesCounter int", "committed bool"] := rfl
 
+/-- `startStopMutex` is a `syncutils.Mutex`, which (without the `deadlock` / `fakemutex` build tags) is an alias of
+`sync.Mutex` — a helper declared in another package: the model's mutex semantics is that of `sync.Mutex`. -/
+theorem C08_skeleton_type_Mutex : Hive.Gen.C08Skel.skel_type_Mutex = ["sync.Mutex"] := rfl
+
 open Hive.Gen.C08Stmts in
 theorem C08_stmts_var_defaultOptions : stmts_var_defaultOptions =
     ["[]Option", "WithQueueSize(10000)", "WithBatchSize(10000)", "WithBatchTimeout(500 * time.Millisecond)"] := rfl
